@@ -4,7 +4,7 @@
    with one lemma per function of the build).
    Part 2: where Panic can come from. *)
 From KV Require Import Res.Pipeline Res.PipelineProofs Yaml.TotalityProofs.
-From KV Require Res.Labels Res.LabelsDefaults Res.Namespace Res.Hygiene Res.Generators Res.Hash Res.LegacySort.
+From KV Require Res.Labels Res.LabelsDefaults Res.Namespace Res.Hygiene Res.Generators Res.Hash Res.LegacySort Res.Replica Res.Image.
 Local Open Scope string_scope.
 
 Definition nd {A} (r : res A) : Prop := r <> Diverge.
@@ -88,11 +88,33 @@ Proof. induction l as [|[k v] t IH]; intros acc; cbn; [discriminate|]. destruct 
 Lemma nd_parse_literal s : nd (Generators.parse_literal s).
 Proof. unfold Generators.parse_literal. nd_case. Qed.
 
+Lemma nd_env_lines ls : forall first, nd (Generators.env_lines first ls).
+Proof.
+  induction ls as [|l t IH]; intros first; cbn [Generators.env_lines]; [discriminate|].
+  apply nd_bind; [unfold Generators.env_line; nd_case|]. intros p _.
+  apply nd_bind; [apply IH|]. intros; discriminate.
+Qed.
+
+Lemma nd_concat_res {A} (l : list (res (list A))) : Forall nd l -> nd (Generators.concat_res l).
+Proof.
+  induction 1 as [|r t Hr _ IH]; cbn [Generators.concat_res]; [discriminate|].
+  apply nd_bind; [exact Hr|]. intros x _. apply nd_bind; [exact IH|]. intros; discriminate.
+Qed.
+
+Lemma nd_gen_pairs g : nd (gen_pairs g).
+Proof.
+  unfold gen_pairs. apply nd_bind.
+  - apply nd_concat_res. apply Forall_forall. intros r Hr. apply in_map_iff in Hr as (c & <- & _). apply nd_env_lines.
+  - intros e _. apply nd_bind; [apply nd_mapM; intros; apply nd_parse_literal|]. intros l _.
+    apply nd_bind; [|intros; discriminate]. apply nd_mapM. intros sc.
+    apply nd_bind; [unfold Generators.parse_file_source; nd_case|]. intros; discriminate.
+Qed.
+
 Lemma nd_gen_node secret g : nd (gen_node secret g).
 Proof.
   unfold gen_node. destruct (String.eqb (pg_name g) ""); [discriminate|].
-  apply nd_bind; [apply nd_mapM; intros; apply nd_parse_literal|]. intros kvs _.
-  apply nd_bind; [apply nd_validated_map|]. intros m _. nd_case.
+  apply nd_bind; [apply nd_gen_pairs|]. intros kvs _.
+  apply nd_bind; [apply nd_validated_map|]. intros m _. discriminate.
 Qed.
 
 Lemma nd_gen_resource secret g : nd (gen_resource secret g).
@@ -287,6 +309,78 @@ Proof.
   destruct (Labels.d_labels d); destruct (Labels.d_common_labels d); try exact G. discriminate.
 Qed.
 
+(* ----- replicas ----- *)
+
+Lemma nd_replica_filter rp fs n : nd (Replica.replica_filter rp fs n).
+Proof. unfold Replica.replica_filter. apply nd_fs_apply. intros x. unfold Replica.set_replicas. nd_case. Qed.
+
+Lemma nd_replica_apply rp fs m : forall hits, nd (replica_apply rp fs m hits).
+Proof.
+  induction m as [|r t IH]; intros hits; cbn [replica_apply]; [discriminate|].
+  destruct hits as [|h ht]; [discriminate|].
+  apply nd_bind.
+  - destruct h; [|discriminate]. apply nd_bind; [apply nd_replica_filter|]. intros; discriminate.
+  - intros r' _. apply nd_bind; [apply IH|]. intros; discriminate.
+Qed.
+
+Lemma nd_replica_loop rp fss : forall found m, nd (replica_loop rp fss found m).
+Proof.
+  induction fss as [|fs t IH]; intros found m; cbn [replica_loop]; [discriminate|].
+  apply nd_bind.
+  - apply nd_mapM. intros r. unfold replica_hits. destruct (nil_or_empty (r_node r)); [discriminate|].
+    apply nd_bind; [apply nd_prev_ids|]. intros; discriminate.
+  - intros hits _. apply nd_bind; [apply nd_replica_apply|]. intros; apply IH.
+Qed.
+
+Lemma nd_replicas_transform rps : forall m, nd (replicas_transform rps m).
+Proof.
+  induction rps as [|rp t IH]; intros m; cbn [replicas_transform]; [discriminate|].
+  apply nd_bind; [|intros; apply IH]. unfold replica_transform.
+  apply nd_bind; [apply nd_replica_loop|]. intros r _. nd_case.
+Qed.
+
+(* ----- images ----- *)
+
+Lemma nd_set_image_value parse im n : nd (Image.set_image_value parse im n).
+Proof.
+  unfold Image.set_image_value. destruct n as [t s v|kvs|es]; try discriminate.
+  apply nd_bind; [|intros r _; nd_case]. unfold Image.update_value.
+  apply nd_bind; [unfold Image.is_matched; nd_case|]. intros b _. nd_case.
+Qed.
+
+Lemma nd_legacy_callback parse im v : nd (Image.legacy_callback parse im v).
+Proof.
+  unfold Image.legacy_callback. destruct v as [t s x|kvs|es]; try discriminate.
+  apply nd_bind; [|intros; discriminate]. apply nd_mapM. intros e. unfold Image.legacy_elem.
+  destruct (is_null e); [discriminate|]. destruct e as [t s x|kvs|l]; try discriminate.
+  destruct (find_field "image" kvs); [|discriminate].
+  apply nd_bind; [apply nd_set_image_value|]. intros; discriminate.
+Qed.
+
+Lemma nd_legacy_walk parse im n : nd (Image.legacy_walk parse im n).
+Proof.
+  induction n as [t s v|kvs IH|es IH] using node_ind'.
+  - discriminate.
+  - cbn [Image.legacy_walk]. apply nd_bind; [|intros; discriminate].
+    induction IH as [|[k v] t Hv _ IHt]; [discriminate|]. cbn [snd] in Hv.
+    apply nd_bind; [exact Hv|]. intros v1 _.
+    apply nd_bind; [destruct (str_in k _); [apply nd_legacy_callback|discriminate]|]. intros v2 _.
+    apply nd_bind; [exact IHt|]. intros; discriminate.
+  - cbn [Image.legacy_walk]. apply nd_bind; [|intros; discriminate].
+    induction IH as [|e t He _ IHt]; [discriminate|].
+    apply nd_bind; [exact He|]. intros e' _. apply nd_bind; [exact IHt|]. intros; discriminate.
+Qed.
+
+Lemma nd_images_transform ims : forall m, nd (images_transform ims m).
+Proof.
+  induction ims as [|im t IH]; intros m; cbn [images_transform]; [discriminate|].
+  apply nd_bind; [|intros; apply IH]. unfold image_transform.
+  apply nd_bind.
+  - apply nd_map_nodes. intros n. unfold Image.legacy_filter. destruct (str_in _ _); [discriminate|apply nd_legacy_walk].
+  - intros m1 _. apply nd_map_nodes. intros n. unfold Image.image_fs_filter. destruct (str_in _ _); [discriminate|].
+    apply nd_fsslice. intros x. apply nd_set_image_value.
+Qed.
+
 Lemma nd_run_kind nonstr k d m : nd (run_kind nonstr k d m).
 Proof.
   unfold run_kind.
@@ -295,7 +389,9 @@ Proof.
   destruct (String.eqb k "SuffixTransformer"); [apply nd_suffix_transform|].
   destruct (String.eqb k "LabelTransformer").
   { apply nd_bind; [apply nd_label_transformers|]. intros; apply nd_label_transforms. }
-  destruct (String.eqb k "AnnotationsTransformer"); [apply nd_label_transform|discriminate].
+  destruct (String.eqb k "AnnotationsTransformer"); [apply nd_label_transform|].
+  destruct (String.eqb k "ReplicaCountTransformer"); [apply nd_replicas_transform|].
+  destruct (String.eqb k "ImageTagTransformer"); [apply nd_images_transform|discriminate].
 Qed.
 
 Lemma nd_run_order nonstr ks d : forall m, nd (run_order nonstr ks d m).
